@@ -55,8 +55,10 @@ type Obligation struct {
 	Millis  int64
 	Model   map[string]string
 	Script  string
+	ScriptQF string
 	Inputs  []*Term
 	IsCover bool // vacuity/cover check: expected SAT
+	Parts   []*Obligation // alternative decomposition (per return point); all unsat => discharged
 }
 
 type Proof struct {
@@ -64,6 +66,8 @@ type Proof struct {
 	fn    *ssa.Function
 	fname string
 	con   *Contract
+	allowedHeap *State
+	allowAll    bool
 
 	assumptions []*Term
 	obligations []*Obligation
@@ -160,7 +164,15 @@ func (p *Proof) opaquePtr(st *State, x PtrV) *Term {
 
 func elemsKey(et types.Type, lpath string) string { return "elems:" + typeKey(et) + lpath }
 
+func untrackedElem(et types.Type) bool {
+	_, ok := et.Underlying().(*types.Interface)
+	return ok
+}
+
 func (p *Proof) loadElem(st *State, et types.Type, arr, idx *Term) Value {
+	if untrackedElem(et) {
+		return freshValue(et, "anyelem")
+	}
 	return build(et, func(l leafSpec) *Term {
 		c := p.heapCell(st, elemsKey(et, l.Path), SArr(SRef, SArr(SBV(64), l.Sort)))
 		return Select(Select(c, arr), idx)
@@ -168,6 +180,9 @@ func (p *Proof) loadElem(st *State, et types.Type, arr, idx *Term) Value {
 }
 
 func (p *Proof) storeElem(st *State, et types.Type, arr, idx *Term, v Value) {
+	if untrackedElem(et) {
+		return
+	}
 	ls := leavesOf(et)
 	ts := flatten(et, v, func(x PtrV) *Term { return p.opaquePtr(st, x) })
 	for i, l := range ls {
@@ -496,6 +511,8 @@ type Frame struct {
 	predGuard map[edgeKey]*Term
 	pure     bool
 	usedAt   map[*CallClause]bool
+	preCall  *State
+	rets     []retPoint
 }
 
 type retPoint struct {
@@ -824,6 +841,7 @@ func (p *Proof) run(fr *Frame, args []Value, st *State) (*State, []Value) {
 			}
 		}
 	}
+	fr.rets = rets
 	if len(rets) == 0 {
 		s := st.clone()
 		s.Guard = False()
@@ -942,15 +960,25 @@ func (fr *Frame) loopHead(li *loopInfo, st *State) *State {
 	reach := B.Fresh("loop_reach", SBool)
 	n.Guard = reach
 	p.assume(reach, st.Guard)
+	// automatic frame invariant: locations outside the function's modifies clause keep their entry values
+	if fr.depth == 0 && p.con != nil && !p.eng.noLoopFrame {
+		for _, fc := range p.frameClauses(st, eff) {
+			p.oblige(fr.loopName(li, "frame-init", fc.ord), "frame", headPos, st.Guard, fc.goal(st), "frame holds on loop entry for "+fc.key)
+			p.assume(reach, fc.goal(n))
+		}
+	}
 	for cell := range eff.cells {
 		if v, ok := n.Locals[cell]; ok {
 			p.assume(reach, p.typeInv(n, cell.Typ, v))
 		}
 	}
+	var facts []*Term
 	for _, lc := range invs {
 		g := fr.evalBool(lc.Expr, n, lc.Src)
 		p.assume(reach, g)
+		facts = append(facts, g)
 	}
+	p.propagateEqs(n, facts, nil)
 	li.decHead = nil
 	for _, lc := range decs {
 		v, _ := fr.evalContract(lc.Expr, n, lc.Src)
@@ -979,6 +1007,11 @@ func (fr *Frame) backEdge(li *loopInfo, st *State) {
 	for k, lc := range invs {
 		g := fr.evalBool(lc.Expr, st, lc.Src)
 		p.oblige(fr.loopName(li, "inv-pres", k+1), "inv-pres", pos, st.Guard, g, "loop invariant preserved: "+lc.Src)
+	}
+	if fr.depth == 0 && p.con != nil && li.havocked != nil && !p.eng.noLoopFrame {
+		for _, fc := range p.frameClauses(st, li.havocked) {
+			p.oblige(fr.loopName(li, "frame-pres", fc.ord), "frame", pos, st.Guard, fc.goal(st), "frame preserved by the loop body for "+fc.key)
+		}
 	}
 	for k, lc := range decs {
 		v, t := fr.evalContract(lc.Expr, st, lc.Src)
@@ -1509,7 +1542,7 @@ func (fr *Frame) slice(x *ssa.Slice, st *State) Value {
 		goal := And(BVSle(z, lo), BVSle(lo, hi), BVSle(hi, n))
 		p.oblige(name, "slice", x.Pos(), st.Guard, goal, "array slice bounds in range")
 		ref := p.allocRef(st)
-		if at.Len() > 0 {
+		if at.Len() > 0 && !untrackedElem(at.Elem()) {
 			ls := leavesOf(at.Elem())
 			if len(ls) == 1 {
 				key := elemsKey(at.Elem(), ls[0].Path)
